@@ -231,7 +231,7 @@ Lemma load_ok_spec m b t0 t' c : load m b t0 = (ROk t', c) ->
   (exists new, tags t' = tags t0 ++ new /\ incl new (b_tags b) /\ forall q, In q new -> ~ In q (tags t0)) /\
   (forall q, In q (tags t') <-> In q (tags t0) \/ In q (b_tags b)).
 Proof.
-  unfold load. set (t1 := add_dims (b_dims b) t0).
+  unfold load, load_v. set (t1 := add_dims (b_dims b) t0).
   destruct (foldr import_one (map fst (b_dsets b)) t1) as [t2|] eqn:Ef; [|intros H; inversion H].
   destruct (existsb _ (bundle_ids b)); [intros H; inversion H|].
   set (t3 := store_new m (b_dsets b) t2).
@@ -257,8 +257,8 @@ Qed.
 Lemma import_ok_shape m b t t' : import_ m b t = (t', Ok) ->
   exists t0 c, register b t = (t0, None) /\ load m b t0 = (ROk t', c).
 Proof.
-  unfold import_. destruct (register b t) as [t0 [e|]] eqn:Er; [intros H; inversion H|].
-  destruct (load m b t0) as [[t2|e] c] eqn:El; intros H; inversion H; subst. eauto.
+  unfold import_, import_v. destruct (register b t) as [t0 [e|]] eqn:Er; [intros H; inversion H|].
+  destruct (load_v true m b t0) as [[t2|e] c] eqn:El; fold (load m b t0) in El; intros H; inversion H; subst. eauto.
 Qed.
 
 Lemma import_ok_assoc : forall m b t t', import_ m b t = (t', Ok) ->
@@ -499,7 +499,8 @@ Lemma exim_ok_assoc : forall m ids cs src t t', exim m ids cs src t = (t', Ok) -
   (exists new, calibs t' = calibs t ++ new /\ forall c n r, In (c, n, r) new <->
      (In (c, n, r) (calibs src) /\ saved ids cs src c /\ lookup c (colls src) = Some CALIB /\ exists d, exported ids src d /\ d_id d = n)).
 Proof.
-  intros m ids cs src t t'. unfold exim. destruct (export ids cs src) as [b|e] eqn:Ex; [|intros H; inversion H].
+  intros m ids cs src t t'. unfold exim, exim_v. destruct (export ids cs src) as [b|e] eqn:Ex; [|intros H; inversion H].
+  fold (import_ m b t).
   intros H. destruct (import_ok_assoc _ _ _ _ H) as (Ti & (new & Tn1 & _ & Tn3) & Tc & _).
   apply export_shape in Ex. destruct Ex as (order & _ & _ & _ & _ & ->). simpl in *.
   split; [|split].
@@ -524,7 +525,8 @@ Lemma exim_ok_chains : forall m ids cs src t t', exim m ids cs src t = (t', Ok) 
   (forall c k, lookup c (colls t) = Some k -> lookup c (colls t') = Some k) /\
   (forall c, ~ (saved ids cs src c /\ lookup c (colls src) = Some CHAINED) -> lookup c (chains t') = lookup c (chains t)).
 Proof.
-  intros m ids cs src t t'. unfold exim. destruct (export ids cs src) as [b|e] eqn:Ex; [|intros H; inversion H].
+  intros m ids cs src t t'. unfold exim, exim_v. destruct (export ids cs src) as [b|e] eqn:Ex; [|intros H; inversion H].
+  fold (import_ m b t).
   intros H. apply export_shape in Ex. destruct Ex as (order & Et & _ & _ & _ & Eb).
   assert (Hbc : b_colls b = map (fun c => (c, kd src c, [])) (filter (fun c => match lookup c (colls src) with Some CHAINED => false | _ => true end)
                                                      (exp_cnames ids cs src)) ++ map (fun p => (fst p, CHAINED, snd p)) order)
@@ -564,7 +566,8 @@ Lemma exim_ok_dims : forall m ids cs src t t', exim m ids cs src t = (t', Ok) ->
   (forall k, lookup k (dims t) = None -> lookup k (dims t') <> None ->
      lookup k (dims t') = lookup k (dims src) /\ exists d, exported ids src d /\ (k = inst_key (d_data d) \/ k = d_data d)).
 Proof.
-  intros m ids cs src t t'. unfold exim. destruct (export ids cs src) as [b|e] eqn:Ex; [|intros H; inversion H].
+  intros m ids cs src t t'. unfold exim, exim_v. destruct (export ids cs src) as [b|e] eqn:Ex; [|intros H; inversion H].
+  fold (import_ m b t).
   intros H. destruct (import_ok_assoc _ _ _ _ H) as (_ & _ & _ & Dl & Dh).
   pose proof (export_dsets _ _ _ _ Ex) as Hds.
   apply export_shape in Ex. destruct Ex as (order & _ & _ & _ & _ & Eb).
